@@ -36,6 +36,8 @@ def instantiations(tier, seed):
             picked[-1] = m["id"]
         forms = {x: FORMS[(n + k) % 3] for n, x in enumerate(pool)}
         out.append({"model": m, "assumed": picked, "forms": forms})
+        if k % 5 == 4:
+            out.append({"model": F.with_subclass_leaves(m), "assumed": picked, "forms": forms})
     base = F.symbolize(F.AL(2, F.a(), F.i(), F.AL(1, F.b(), F.c(), id="B", sign=1), id="A", sign=1))
     for mu in ("drop_assumption", "contain_strict"):
         out.append({"kind": "mutant", "mutant": mu, "model": base, "assumed": ["a", "i", "B"],
